@@ -52,8 +52,11 @@ CHECKS = {
              "(props/C04Wrap.v: convert equals a pure spec for every token tree incl. nested explicit/implicit repeaters and `$#` at "
              "any depth, every line list, every budget; from the abbreviation text itself), text reaches the stream verbatim split only at CR/LF/CRLF, "
              "children after text; attribute values are the written text character for character (quoted, unquoted with balanced "
-             "parentheses, expression), a[b=(c)] end to end, text on elements with attributes through expand. Independent oracle over "
-             "the whole punctuation alphabet and wrap-line lists.",
+             "parentheses, expression), a[b=(c)] end to end, text on elements with attributes through expand; C04_text_nested and "
+             "companions: payloads with `$` counters, `$#` and `${n}` fields at ANY brace depth of a text or `{expression}` value "
+             "(closing brace is the last token, value tokens in order, copy i of *N, through expand; false before repair 86fc68a, shown "
+             "on the pre-repair tokenizer); whole-text insertion incl. markup.href (insert_wrap). Independent oracle over "
+             "the whole punctuation alphabet, nested payloads with counters, snippet-alias trees and wrap-line lists / strings.",
         technique="Coq proof by induction over the payload (tokenizer literal scanner with brace depth) and over converted forests + model/implementation correspondence and payload oracle",
         ref="DESIGN.md §5 C04"),
     'C05': dict(
@@ -69,8 +72,13 @@ CHECKS = {
         text="Coq theorems: keys_reach_self as a COMPLETE vm_compute sweep over every key of the regenerated built-in table (matcher selects "
              "the key's own snippet, output is its property + first value/tabstop or raw body), keywords_resolve sweep over every "
              "(snippet, letters-only keyword) in five letter cases, keyword_any_case for all tables, score_case_invariant for all "
-             "strings (PrimFloat, bit-exact), exact_key_wins for all tables, user_overrides, scope filters. One listed finding "
-             "(keywords containing a digit). Oracle over every key/keyword x syntax x scope and random user tables.",
+             "strings (PrimFloat, bit-exact), exact_key_wins for all tables, user_overrides, scope filters; for user property snippets: "
+             "C06_value_print / _wrapped_print / _wrapped_numbering / _erase_identity for ALL written values (keywords, numbers, colours, "
+             "strings, nested calls; fields 1..k in document order; erasing the fields gives the unwrapped printing) and the source-text "
+             "theorems for the canonical layout (_partial: other blank layouts, explicit fields in the text). Four listed findings "
+             "(keyword with a digit, raw snippet line break before a tabstop, user override of the gradient key, tabstop directly after "
+             "a call). Oracle over every key/keyword x syntax x scope, random user tables with cased keys, values compared as listed, "
+             "tables supplied through global_config layers.",
         technique="Coq proof + complete finite sweeps over the generated snippet table (PrimFloat scorer evaluated by vm_compute) + in-Coq model evaluation compared with the implementation",
         ref="DESIGN.md §5 C06",
         note=NOTE + " Theorems that mention the scorer list the kernel primitives PrimFloat.* / PrimInt63.* under Print Assumptions (declared Primitive, not axioms)."),
@@ -81,7 +89,9 @@ CHECKS = {
              "built-in tables), including the BEM addon (bem never raises; bem.enabled configurations are inside C07_expand_safe); the same "
              "for the stylesheet model (C07_css_expand_safe, parser over all token lists with fuel adequacy). "
              "markup.href is inside the model (matchers proved equivalent to the regex denotations over tables regenerated from the compiled "
-             "patterns, props/Href.v; full expand() output compared). Lorem text and CPython's limits (recursion depth, the 4300-digit int "
+             "patterns, props/Href.v; full expand() output compared), and so is lorem text generation with the random draws as an explicit "
+             "stream (props/Lorem.v: never Internal for every header and stream, exactly word_count vocabulary entries, OutOfFuel exactly "
+             "when the draws run out; the implementation runs under the same recorded draws). CPython's limits (recursion depth, the 4300-digit int "
              "conversion) are implementation-oracle only (exhaustive short strings, random and "
              "mutated abbreviations, random option sets); two listed recursion-limit findings.",
         technique="Coq proof stage-wise (tokenizer, parser over all token lists, converter, snippet resolution with fuel bound, composition) + complete vm_compute sweep of generated snippet tables + exhaustive short-string outcome-class correspondence",
@@ -183,8 +193,9 @@ CHECKS = {
              "C09/C10 level-B grammars: select_item_html / get_open_tag return the tags of the document's own record with ranges "
              "slicing exactly to the written names, attributes, values and class tokens; get_css_section returns the innermost rule "
              "and its direct declarations with exact name/value/before/after offsets; select_item_css equals the tree spec. Tied by "
-             "correspondence on generated documents with ground truth at every position. One known finding (brace-terminated "
-             "declaration full range).",
+             "correspondence on generated documents with ground truth at every position (incl. names over the whole XML name alphabet "
+             "below U+2000, empty-valued declarations, a last declaration `name:` ended by the body: C17_css_properties_every_tail, "
+             "repair f0985e3). One known finding (brace-terminated declaration full range).",
         technique="Coq proof over scanner-event and attribute-token models + model/implementation correspondence on generated documents with ground truth",
         ref="DESIGN.md §5 C17"),
     'C18': dict(
